@@ -74,6 +74,7 @@ type FindingSplit struct {
 type AfterHook struct {
 	Pattern string
 	Ghost   string
+	Assume  bool
 	Expr    *Clause
 }
 
@@ -326,6 +327,16 @@ func (cs *Contracts) parseFile(path string, pkg *types.Package) error {
 		case "ghost":
 			cur.Ghosts = append(cur.Ghosts, strings.FieldsFunc(rest, func(r rune) bool { return r == ',' || r == ' ' })...)
 		case "after":
+			if j := strings.Index(rest, " assume "); j >= 0 && (strings.Index(rest, " set ") < 0 || j < strings.Index(rest, " set ")) {
+				// after <pattern> assume [label] expr — an assumption about an external call, listed in the evidence;
+				// old(e) in expr is e right before the call
+				c, err := mkClause(rc, rest[j+8:])
+				if err != nil {
+					return err
+				}
+				cur.Afters = append(cur.Afters, &AfterHook{Pattern: strings.TrimSpace(rest[:j]), Assume: true, Expr: c})
+				break
+			}
 			j := strings.Index(rest, " set ")
 			k := strings.Index(rest, "=")
 			if j < 0 || k < j {
